@@ -500,8 +500,8 @@ def wf_shape(wf) -> Counter:
     acc = Counter()
     uses = Counter()
     for a in wf["apps"]:
-        for r in set(a["ins"]):
-            uses[r] += 1
+        for k in slots_of(a["term"]):          # every occurrence counts: an input used
+            uses[a["ins"][k]] += 1             # twice by one tool is inlined twice
         if len(set(slots_of(a["term"]))) < len(slots_of(a["term"])):
             acc["tools_using_an_input_twice"] += 1
         if len(set(a["ins"])) < len(a["ins"]):
@@ -630,10 +630,34 @@ class Obs:
 _VAR = re.compile(r"τ[0-9₀-₉]*")
 
 
+def _split_top(s: str) -> list:
+    out, depth, cur = [], 0, ""
+    for ch in s:
+        if ch in "([":
+            depth += 1
+        elif ch in ")]":
+            depth -= 1
+        if ch == "," and depth == 0:
+            out.append(cur.strip())
+            cur = ""
+        else:
+            cur += ch
+    if cur.strip():
+        out.append(cur.strip())
+    return out
+
+
 def norm_vars(s: str) -> str:
-    """type variables are printed with a running number: rename by first occurrence"""
+    """type variables are printed with a running number and their constraints in set
+    order: rename variables by first occurrence, sort the constraint list"""
     seen = {}
-    return _VAR.sub(lambda m: seen.setdefault(m.group(0), f"τ{len(seen)}"), s)
+    s = _VAR.sub(lambda m: seen.setdefault(m.group(0), f"τ{len(seen)}"), s)
+    i = s.find(" [")
+    if i >= 0 and "]" in s[i:]:
+        j = s.rindex("]")
+        cons = sorted(set(_split_top(s[i + 2:j])))
+        s = s[:i] + " [" + ", ".join(cons) + "]" + s[j + 1:]
+    return s
 
 
 def observe(lang: Lang, g, rmap=None, root=None) -> Obs:
@@ -820,3 +844,253 @@ def listing(o: Obs):
     for s, p, t in sorted(o.edges, key=lambda e: (nm(e[0]), e[1], nm(e[2]))):
         rows.append(f"{nm(s)} {p} {nm(t)}")
     return rows
+
+
+# --------------------------------------------------------------------------
+# the inlined expression, built with the public parser
+
+def producers(wf) -> dict:
+    return {a["out"]: a for a in wf["apps"]}
+
+
+def targets_of(wf) -> list:
+    used = {r for a in wf["apps"] for r in a["ins"]}
+    return [a["out"] for a in wf["apps"] if a["out"] not in used]
+
+
+def inline_text(lang: Lang, wf, r, srcnum: dict) -> str:
+    """text of the single expression for resource r: every tool input replaced by the
+    (parenthesised) expression of its producer, sources numbered by srcnum"""
+    prod = producers(wf)
+
+    def go(r):
+        if r not in prod:
+            return None
+        a = prod[r]
+
+        def tt(t, top):
+            if t[0] == "in":
+                k, an = t[1], t[2]
+                q = a["ins"][k]
+                inner = str(srcnum[q]) if q not in prod else "(" + go(q) + ")"
+                return f"({inner} : {lang.ty_text(an)})" if an is not None else inner
+            if t[0] == "anon":
+                return f"(-: {lang.ty_text(t[1])})"
+            if not t[2]:
+                return t[1]
+            s = " ".join([t[1]] + [tt(x, False) for x in t[2]])
+            return s if top else f"({s})"
+        return tt(a["term"], True)
+    return go(r)
+
+
+def inline_obs(lang: Lang, wf, typed_sources: bool):
+    """graph of add_expr on the inlined expression (tree unfolding; sources shared).
+    typed_sources: give the sources the types Workflow.source_types derives (the
+    documented whole-workflow step), else leave them to inference alone"""
+    from rdflib import URIRef
+    from transforge.expr import Source
+    from transforge.namespace import TF
+    tg = targets_of(wf)
+    assert len(tg) == 1
+    srcnum = {s: i + 1 for i, s in enumerate(wf["sources"])}
+    text = inline_text(lang, wf, tg[0], srcnum)
+    o = Obs()
+    try:
+        if typed_sources:
+            w = build_wf(lang, wf, "listed")
+            st = {str(n)[len(NS) + 2:]: t for n, t in w.source_types(lang.language)}
+            srcs = [Source(st[s]) for s in wf["sources"]]
+        else:
+            srcs = [Source() for _ in wf["sources"]]
+        e = lang.language.parse_expr(text, *srcs)
+        e.fix()
+        g = new_graph(lang, True)
+        root = URIRef(ROOT)
+        out = g.add_expr(e, root)
+        g.add((root, TF.output, out))
+        for s in srcs:
+            g.add((root, TF.input, g.add_expr(s, root)))
+        o = observe(lang, g, None)
+    except Exception as ex:      # noqa: BLE001
+        o.error = (type(ex).__name__,)
+    return o, text
+
+
+# --------------------------------------------------------------------------
+# the property, literally: tool trees plugged together (oracle (a))
+
+def spec_obs(lang: Lang, wf, passthrough: bool) -> Obs:
+    """Nodes named by (resource, position); written from the property text:
+    * one node per workflow resource; a tool's node is the node of the outermost
+      operator application of its expression; one node per further operator
+      application / anonymous source inside the expression;
+    * an input of a tool is the node of the resource that feeds it (passthrough), or -
+      passthrough off, producer is a tool - a source node of its own (one per input
+      position of the tool) that is fed by the producer's node;
+    * data flow inside one expression as in C08 (step -> each argument; one internal
+      node per function-typed argument ...);
+    * workflow sources are marked as inputs, the final tool's node as output."""
+    o = Obs()
+    prod = producers(wf)
+    tg = targets_of(wf)
+    via = {}
+
+    def node_of(r):
+        return ("S", r) if r not in prod else ("N", r, ())
+    internals = {}
+
+    def go(a, t, path):
+        r = a["out"]
+        if t[0] == "in":
+            q = a["ins"][t[1]]
+            if passthrough or q not in prod:
+                return node_of(q)
+            n = ("I", r, t[1])
+            o.edges.add((n, "from", node_of(q)))
+            return n
+        if t[0] == "anon":
+            return ("A", r, path)
+        c = ("N", r, path)
+        op = lang.ops[lang.index[t[1]]]
+        via[c] = t[1]
+        ns, its = [], []
+        for i, x in enumerate(t[2]):
+            n = go(a, x, path + (i,))
+            it = None
+            if is_fn(op["params"][i]):
+                it = ("X", r, path + (i,))
+                o.edges.add((c, "internal", it))
+                o.edges.add((n, "from", it))
+                for j in internals.get(n, ()):
+                    o.edges.add((j, "from", it))
+            o.edges.add((c, "from", n))
+            ns.append(n)
+            its.append(it)
+        for i, it in enumerate(its):
+            if it is not None:
+                for j, n in enumerate(ns):
+                    if j != i:
+                        o.edges.add((it, "from", n))
+        internals[c] = [it for it in its if it is not None]
+        return c
+    for a in wf["apps"]:
+        go(a, a["term"], ())
+    nodes = {node_of(r) for r in wf["sources"]} | {node_of(a["out"]) for a in wf["apps"]}
+    for s, _, t in o.edges:
+        nodes |= {s, t}
+    ins = {node_of(s) for s in wf["sources"]}
+    for n in nodes:
+        o.nodes[n] = ((via[n],) if n in via else (), (), (), n in ins,
+                      len(tg) == 1 and n == node_of(tg[0]))
+    o.rmap = {r: node_of(r) for r in list(wf["sources"]) + [a["out"] for a in wf["apps"]]}
+    return o
+
+
+def in_domain(lang: Lang, wf) -> bool:
+    """the workflows the property (and the Coq theorem, wf_okb) speaks about: one final
+    application, every input defined, acyclic by construction; every tool expression is
+    an operator application; inputs are used as data"""
+    if len(targets_of(wf)) != 1:
+        return False
+    known = set(wf["sources"])
+    for a in wf["apps"]:
+        if any(r not in known for r in a["ins"]):
+            return False
+        known.add(a["out"])
+        if a["term"][0] != "ap":
+            return False
+    return True
+
+
+# --------------------------------------------------------------------------
+# Coq side
+
+HDR = """From Coq Require Import List Arith Bool.
+Import ListNotations.
+From TF Require Import Graph.AddExpr Graph.AddExprSpec Graph.Workflow Graph.WorkflowSpec.
+Definition enc (r : option wres) :=
+  match r with
+  | None => (0, [], [], 0, [])
+  | Some w => (1, map (fun t => [t_subj t; t_pred t; t_obj t]) (r_tr w), r_inputs w, r_output w,
+               map (fun p => [fst p; snd p]) (r_map w))
+  end.
+Definition aw (pinned pt : bool) (wf : wflow) := enc (add_workflow add_from_plain add_from_plain pinned pt wf).
+Fixpoint teqb (a b : list nat) : bool :=
+  match a, b with
+  | [], [] => true
+  | x :: a', y :: b' => Nat.eqb x y && teqb a' b'
+  | _, _ => false
+  end.
+Definition subset (l1 l2 : list (list nat)) : bool := forallb (fun t => existsb (teqb t) l2) l1.
+Definition same (a b : nat * list (list nat) * list nat * nat * list (list nat)) : bool :=
+  let '(f1, t1, i1, o1, m1) := a in let '(f2, t2, i2, o2, m2) := b in
+  Nat.eqb f1 f2 && subset t1 t2 && subset t2 t1 && teqb i1 i2 && Nat.eqb o1 o2 && subset m1 m2 && subset m2 m1.
+(* model of the repaired add_expr wiring; does the model of the pinned wiring agree;
+   is the workflow in the theorem's domain *)
+Definition obs (pt : bool) (wf : wflow) :=
+  (aw false pt wf, Nat.b2n (same (aw false pt wf) (aw true pt wf)), Nat.b2n (wf_okb wf)).
+"""
+
+
+def coq_bool(b) -> str:
+    return "true" if b else "false"
+
+
+def coq_wf(lang: Lang, wf, app_order=None, source_order=None):
+    """the workflow as a Gallina term, with the harness' numbering of resources and
+    object identities; returns (term, resource numbering)"""
+    res = {}
+    for s in wf["sources"]:
+        res[s] = len(res)
+    for a in wf["apps"]:
+        res[a["out"]] = len(res)
+    ctr = [len(res)]
+
+    def fresh():
+        ctr[0] += 1
+        return ctr[0] - 1
+
+    def tx(t):
+        if t[0] == "in":
+            return f"(TIn {t[1]})"
+        if t[0] == "anon":
+            return f"(TAnon {fresh()})"
+        op = lang.ops[lang.index[t[1]]]
+        cur = f"(TOp {fresh()} {lang.index[t[1]]})"
+        for i, x in enumerate(t[2]):
+            cur = f"(TApp {fresh()} {cur} {tx(x)} {coq_bool(is_fn(op['params'][i]))})"
+        return cur
+    apps = {}
+    for a in wf["apps"]:
+        body = tx(a["term"])
+        ind = [fresh() for _ in a["ins"]]
+        apps[a["out"]] = (f"(mkApp {res[a['out']]} {body} {C.coq_list([res.get(r, 9999) for r in a['ins']])} "
+                          f"{C.coq_list(ind)})")
+    ao = app_order or [a["out"] for a in wf["apps"]]
+    so = source_order or wf["sources"]
+    term = f"(mkWf {C.coq_list([res[s] for s in so])} {C.coq_list([apps[o] for o in ao])})"
+    return term, res
+
+
+def model_obs(lang: Lang, res: dict, val) -> Obs:
+    """the model's result as an observation (structural colours)"""
+    o = Obs()
+    flag, trs, ins, out, rmap = val
+    if not flag:
+        o.error = ("model-none",)
+        return o
+    via = {}
+    nodes = set(ins) | {out} | {n for _, n in rmap}
+    for s, p, t in trs:
+        if p == 2:
+            via.setdefault(s, []).append(lang.ops[t]["name"])
+            nodes.add(s)
+        elif p in (0, 1):
+            o.edges.add((s, "from" if p == 0 else "internal", t))
+            nodes |= {s, t}
+    for n in nodes:
+        o.nodes[n] = (tuple(sorted(via.get(n, ()))), (), (), n in ins, n == out)
+    inv = {v: k for k, v in res.items()}
+    o.rmap = {inv[r]: n for r, n in rmap}
+    return o
